@@ -77,7 +77,7 @@ def cases(tier, seed):
         _cfg("loom", "raw", 3, 1, 0, 1, 3),
         _cfg("loom", "protocol", 4, 2, 2, 1, 2), _cfg("loom", "protocol", 3, 1, 2, 1, 3),
         _cfg("shuttle", "local", 2, 2, 1, 0), _cfg("shuttle", "local", 2, 2, 2, 0),
-        _cfg("shuttle", "local", 2, 1, 0, 1), _cfg("shuttle", "owned", 2, 2, 2, 0),
+        _cfg("shuttle", "local", 2, 1, 0, 1),
     ]
     return th
 
